@@ -524,6 +524,29 @@ namespace occa {
         }
       }
 
+      // A value or a closed pair followed by + - * & is a binary operator
+      // even if the next token is a left unary operator, unless the pair is a cast
+      // 1 - -2
+      // a[i] * !b
+      // (a + b) & -c
+      // (int) -c
+      if (!onlyUnary) {
+        if (!(state.prevToken->type() & tokenType::op)) {
+          return false;
+        }
+        if (prevOpType & operatorType::pairEnd) {
+          const bool prevPairIsCast = (
+            state.operatorCount()
+            && (state.lastOperator().opType() & operatorType::parenCast)
+            && (state.lastOperator().token->origin.position.start
+                == state.prevToken->origin.position.start)
+          );
+          if (!prevPairIsCast) {
+            return false;
+          }
+        }
+      }
+
       const bool nextTokenIsOp = (
         state.nextToken->getOpType() & (operatorType::unary |
                                         operatorType::binary)
